@@ -301,6 +301,18 @@ def main():
         tests, raw = extract_counterexamples(cid, n, target, max(1800, 3 * timeout_s))
         open(os.path.join(CACHE, "last_playback_%s.log" % n), "w").write(raw)
         fail_tests = [t for t in tests if t["kind"] != "cover"]
+        if not fail_tests and tests:
+            # Kani produced no trace for the failed check itself (it does that for panics whose
+            # message is formatted at run time).  The reachability witnesses give the shape of the
+            # symbolic inputs; they, and all-zero / all-one vectors of the same shape, are tried as
+            # candidate inputs for the native replay.  Only a candidate that really panics counts.
+            cands = []
+            for t in tests:
+                cands.append({"kind": "candidate(cover:%s)" % t["description"], "description": fcs[0]["description"], "values": t["values"]})
+            shape = tests[0]["values"]
+            cands.append({"kind": "candidate(zeros)", "description": fcs[0]["description"], "values": [[0] * len(v) for v in shape]})
+            cands.append({"kind": "candidate(ones)", "description": fcs[0]["description"], "values": [[255] * len(v) for v in shape]})
+            fail_tests = cands
         if not fail_tests:
             inconclusive.append((n, "failed check but no counterexample could be extracted"))
             continue
